@@ -108,3 +108,42 @@ Print Assumptions C03_reencode_conn.
 Theorem C03_packet_ids : Statements.C03_packet_ids.
 Proof. exact ProofsIds.packet_ids. Qed.
 Print Assumptions C03_packet_ids.
+
+(* ---- the source functions themselves: Gallina translations regenerated from /repo on every run (Gen/Translated.v)
+   equal the model functions the theorems above are about, for every input, and never panic ---- *)
+From Trans Require Spec Equiv.
+
+(* message.readLPBytes = Codec.Impl.read_lp *)
+Theorem C03_readLPBytes_is_model : Trans.Spec.T_readLPBytes.
+Proof. exact Trans.Equiv.readLPBytes_equiv. Qed.
+Print Assumptions C03_readLPBytes_is_model.
+
+(* message.writeLPBytes writes Codec.Wire.lp or refuses without touching the buffer *)
+Theorem C03_writeLPBytes_is_model : Trans.Spec.T_writeLPBytes.
+Proof. exact Trans.Equiv.writeLPBytes_equiv. Qed.
+Print Assumptions C03_writeLPBytes_is_model.
+
+(* header.msglen = Codec.Impl.hdr_msglen_of *)
+Theorem C03_msglen_is_model : Trans.Spec.T_msglen.
+Proof. exact Trans.Equiv.msglen_equiv. Qed.
+Print Assumptions C03_msglen_is_model.
+
+(* message.ValidTopic = Codec.Wire.valid_topic *)
+Theorem C03_ValidTopic_is_model : Trans.Spec.T_ValidTopic.
+Proof. exact Trans.Equiv.validTopic_equiv. Qed.
+Print Assumptions C03_ValidTopic_is_model.
+
+(* message.ValidQos accepts exactly 0, 1, 2 *)
+Theorem C03_ValidQos_is_model : Trans.Spec.T_ValidQos.
+Proof. exact Trans.Equiv.validQos_equiv. Qed.
+Print Assumptions C03_ValidQos_is_model.
+
+(* message.Type.Valid = Codec.Impl.type_valid *)
+Theorem C03_TypeValid_is_model : Trans.Spec.T_TypeValid.
+Proof. exact Trans.Equiv.typeValid_equiv. Qed.
+Print Assumptions C03_TypeValid_is_model.
+
+(* message.Type.DefaultFlags = the table of the codec model *)
+Theorem C03_DefaultFlags_is_model : Trans.Spec.T_DefaultFlags.
+Proof. exact Trans.Equiv.defaultFlags_equiv. Qed.
+Print Assumptions C03_DefaultFlags_is_model.
